@@ -344,3 +344,6 @@ def check(run):
     r7_constness_visit(run, F)
     r8_array_len(run, F)
     r9_named_length_guard(run, F)
+    # the length of a string literal passed as a view is the number of its bytes (shared with C09.R7)
+    from props import c09
+    c09.r7_string_bytes(run, F)
